@@ -907,3 +907,57 @@ func coldCase(c *ev.Case) {
 		c.Sample(fmt.Sprintf("cold start kind %d: patterns %s text %+q", kind, q(pats), text))
 	}
 }
+
+// ---- periodic: one rune covered by hundreds of occurrences ----
+
+// periodicCase: keywords that are runs of one rune (or of a short period) on a longer run
+// of it, so that a rune of the text lies inside 255, 256, 257, 512, 1024 ... occurrences at
+// once (up to 4096: the brute-force oracle is quadratic in that number) — the sizes at which a per-position counter of a narrow integer type comes back to
+// zero. Oracle as everywhere (covered-byte mask from the brute-force occurrences).
+func periodicCase(c *ev.Case) {
+	rng := c.Rng
+	unit := rng.PickStr("a", "a", "é", "世", "😀", "ab", "aé")
+	ul := utf8.RuneCountInString(unit)
+	depths := []int{127, 128, 129, 255, 256, 257, 300, 511, 512, 513, 768, 1024}
+	if c.Index%8 == 0 {
+		depths = []int{2047, 2048, 2049, 4096}
+	}
+	d := depths[rng.Intn(len(depths))] // occurrences that will cover the middle of the run
+	var pats []string
+	total := 0
+	switch rng.Intn(3) {
+	case 0: // one keyword of d units: a rune in the middle of a run of >= 2d units lies in d occurrences
+		pats = []string{strings.Repeat(unit, d)}
+		total = d
+	case 1: // two keywords whose lengths add up to d
+		k := rng.Range(1, d-1)
+		pats = []string{strings.Repeat(unit, k), strings.Repeat(unit, d-k)}
+		total = d
+	default: // three
+		k1 := rng.Range(1, d-2)
+		k2 := rng.Range(1, d-k1-1)
+		pats = []string{strings.Repeat(unit, k1), strings.Repeat(unit, k2), strings.Repeat(unit, d-k1-k2)}
+		total = d
+	}
+	run := 2*total + rng.Range(20, 200)
+	pre, post := rng.PickStr("x", "", "xy", "ж"), rng.PickStr("y", "", "zz", "ж")
+	text := pre + strings.Repeat(unit, run) + post
+	s := build(c, shuffle(rng, pats))
+	if s == nil {
+		return
+	}
+	al := alphabet{"periodic", []rune(unit + "xyz")}
+	if !s.checkText(text, s.genRepls(al, 8), s.genMasks(al)) {
+		return
+	}
+	c.Add("periodic_cases", 1)
+	c.Add(fmt.Sprintf("periodic_depth_%d", d*1/1), 1)
+	if d%256 == 0 {
+		c.Add("periodic_depth_multiple_of_256", 1)
+	}
+	_ = ul
+	c.Distinct(s.hash)
+	if c.WantSample() {
+		c.Sample(fmt.Sprintf("periodic: %d keyword(s) made of %q repeated (lengths adding up to %d units) on a run of %d units: the runes in the middle of the run lie inside %d occurrences each", len(pats), unit, total, run, total))
+	}
+}
